@@ -237,7 +237,7 @@ func coldStart() {
 			ps = append(ps, p)
 		}
 	}
-	const workers = 8
+	const workers = 16
 	msgs := make([]string, workers)
 	var wg sync.WaitGroup
 	start := make(chan struct{})
@@ -246,6 +246,13 @@ func coldStart() {
 		go func(w int) {
 			defer wg.Done()
 			<-start
+			for i := range coldTab {
+				ct := coldTab[(i*7+w*len(coldTab)/workers)%len(coldTab)]
+				if got := ct.f(); got != ct.want {
+					msgs[w] = fmt.Sprintf("duct.TypeOf of a type first named concurrently is %q, the scheme gives %q", got, ct.want)
+					return
+				}
+			}
 			for i := range ps {
 				p := ps[(i*5+w*len(ps)/workers)%len(ps)] // every goroutine starts at another type
 				var ev []event
